@@ -13,7 +13,7 @@ func TestTwins(t *testing.T) {
 	}
 	tab := crc64.MakeTable(crc64.ECMA)
 	for _, w := range tw {
-		if w.Name == "equal CRC-64 (ECMA)" && crc64.Checksum(w.Value, tab) != crc64.Checksum(x, tab) {
+		if w.Name == "the same CRC-64 (ECMA)" && crc64.Checksum(w.Value, tab) != crc64.Checksum(x, tab) {
 			t.Fatal("crc64 twin does not collide")
 		}
 	}
